@@ -1765,6 +1765,10 @@ def check_C13(ck):
         body = pre + ["update"] + (["dump"] if pol == "gen" else []) + ["encode"] + calls + ["echo D", "decode"] + calls
         scripts.append(("e%d-%s" % (i, pol), body))
 
+    known = verif.known_findings_for("C13")
+    d15_known = any("next-null" in k.get("witness", "") for k in known)
+    d15_seen = []
+
     def c13_oracle(bad, by_name, impl_out):
         for name, lines in scripts:
             out = verif.visible(impl_out.get(name, []))
@@ -1779,8 +1783,15 @@ def check_C13(ck):
             if dec and dec[0] != "decode ok":
                 return (name, lines, {"kind": "failing input: the emitted data cannot be decoded", "implementation": dec[0]})
             if before != after:
-                d_ = [z for z in zip(before, after) if z[0] != z[1]][:1]
-                return (name, lines, {"kind": "failing input: calls after decoding differ from calls after update", "first_difference": d_})
+                d_ = [z for z in zip(before, after) if z[0] != z[1]]
+                # D15: a definition that calls next after decoding finds its next cell null
+                d15 = [z for z in d_ if z[1].endswith(" next-null")]
+                rest = [z for z in d_ if not z[1].endswith(" next-null")]
+                if d15 and d15_known and not rest and len(before) == len(after):
+                    if name not in d15_seen:
+                        d15_seen.append(name)
+                    continue
+                return (name, lines, {"kind": "failing input: calls after decoding differ from calls after update", "first_difference": (rest or d_)[:1]})
         return None
     impl_out, model_out, nbad = correspondence(ck, scripts, "C13: extents, the three encoded streams, decoded words, v-table pointers, calls before and after decoding",
                                                oracle=False, extra_oracle=c13_oracle)
@@ -1788,6 +1799,8 @@ def check_C13(ck):
     if f and not ck.violations:
         f[2].update(property="C13", script=f[1])
         ck.violation(verif.write_replay("C13", f[0], f[2]), True)
+    if d15_seen:
+        ck.known_observed = {k.get("witness") for k in known if "next-null" in k.get("witness", "")}
     empty = sum(1 for ls in impl_out.values() for l in ls if l.startswith("class ") and l.endswith("vtbl=[]"))
     nonzero_first = sum(1 for ls in impl_out.values() for l in ls if l.startswith("class ") and " first=0 " not in l)
     # capacity of the 16-bit codes (D14): around the largest definition index that fits beside the stop flag.
